@@ -197,7 +197,7 @@ ob("c12::angle_conversions_are_products", "C12", cls="miter", timeout=600, backe
 ob("c14::nopanic::exp_no_panic", "C14", checks="default", timeout=1800, functions=["TwoFloat::exp", "TwoFloat::expm1_quarter (private)", "explog::expm1_128th (private)", "explog::exp_half (private)"])
 ob("c14::nopanic::exp2_no_panic", "C14", checks="default", timeout=1200, functions=["TwoFloat::exp2", "explog::mul_pow2 (private)"])
 ob("c14::nopanic::exp_m1_powf_no_panic", "C14", checks="default", timeout=600, functions=["TwoFloat::exp_m1", "TwoFloat::powf"])
-ob("c14::nopanic::exp_range_rules", "C14", checks="default", timeout=900, functions=["TwoFloat::exp", "TwoFloat::exp2"])
+ob("c14::nopanic::exp_range_rules", "C14", checks="default", timeout=1800, functions=["TwoFloat::exp", "TwoFloat::exp2"])
 ob("c14::nopanic::powf_case_table", "C14", checks="default", timeout=600, functions=["TwoFloat::powf"])
 ob("c14::exact_points", "C14", cls="ground", native=True, functions=["TwoFloat::exp", "TwoFloat::exp_m1", "TwoFloat::powf"])
 ob("c14::exp2_integers", "C14", cls="ground", native=True, functions=["TwoFloat::exp2"])
